@@ -1,6 +1,8 @@
 package appsim
 
 import (
+	"os"
+	"sync/atomic"
 	"bytes"
 	"encoding/binary"
 	"errors"
@@ -95,6 +97,9 @@ type FakeEngine struct {
 
 	seed     uint64
 	listener net.Listener
+	// received counts the JSON-RPC messages read from the socket (one per line), recorded the calls logged by the
+	// handlers; offset calibrates messages that never reach a handler (see Settled)
+	received, recorded, offset int64
 	server   *rpc.Server
 	IPCPath  string
 
@@ -154,11 +159,18 @@ func NewFakeEngine(seed uint64, ipcPath string, genesisHash common.Hash, genesis
 		MaxCalls:  8192,
 		MaxBuilt:  2048,
 	}
-	l, srv, err := rpc.StartIPCEndpoint(ipcPath, []rpc.API{{Namespace: "engine", Service: &engineAPI{e}}})
+	srv := rpc.NewServer()
+	if err := srv.RegisterName("engine", &engineAPI{e}); err != nil {
+		return nil, err
+	}
+	_ = os.Remove(ipcPath)
+	l, err := net.Listen("unix", ipcPath)
 	if err != nil {
 		return nil, err
 	}
-	e.listener, e.server = l, srv
+	cl := &countingListener{Listener: l, n: &e.received}
+	go srv.ServeListener(cl)
+	e.listener, e.server = cl, srv
 	return e, nil
 }
 
@@ -265,6 +277,7 @@ func (e *FakeEngine) Built(h common.Hash) *engine.ExecutionPayloadEnvelope {
 // record appends c to the log and returns the fault (if any) to apply. Must hold e.mu.
 func (e *FakeEngine) record(c *Call) *Fault {
 	e.push(c)
+	atomic.AddInt64(&e.recorded, 1)
 	for i, f := range e.faults {
 		if f.Method != c.Method || (f.Match != nil && !f.Match(c)) {
 			continue
@@ -631,4 +644,44 @@ func (c Call) String() string {
 		return fmt.Sprintf("#%d %s n=%d hash=%x parent=%x txs=%d reqs=%d -> %s %s", c.Seq, c.Method, c.Number, c.BlockHash[:4], c.ParentHash[:4], len(c.Txs), len(c.Requests), c.Status, c.Err)
 	}
 	return fmt.Sprintf("#%d %s -> %s", c.Seq, c.Method, c.Err)
+}
+
+
+// countingListener counts the JSON-RPC messages the server reads (the client's encoder terminates each
+// message with a newline; raw newlines cannot occur inside JSON strings).
+type countingListener struct {
+	net.Listener
+	n *int64
+}
+
+func (l *countingListener) Accept() (net.Conn, error) {
+	c, err := l.Listener.Accept()
+	if err != nil {
+		return nil, err
+	}
+	return &countingConn{Conn: c, n: l.n}, nil
+}
+
+type countingConn struct {
+	net.Conn
+	n *int64
+}
+
+func (c *countingConn) Read(p []byte) (int, error) {
+	k, err := c.Conn.Read(p)
+	if k > 0 {
+		atomic.AddInt64(c.n, int64(bytes.Count(p[:k], []byte{'\n'})))
+	}
+	return k, err
+}
+
+// Settled reports whether every request read from the socket so far has been logged by its handler.
+func (e *FakeEngine) Settled() bool {
+	return atomic.LoadInt64(&e.recorded)+atomic.LoadInt64(&e.offset) >= atomic.LoadInt64(&e.received)
+}
+
+// Recalibrate assumes the engine is quiescent now: messages that never reached a handler (unknown methods,
+// malformed requests) stop counting as outstanding.
+func (e *FakeEngine) Recalibrate() {
+	atomic.StoreInt64(&e.offset, atomic.LoadInt64(&e.received)-atomic.LoadInt64(&e.recorded))
 }
